@@ -299,6 +299,58 @@ func c11GenShapes(r *engine.Run, emit func(c11ShapeCase)) {
 	}
 }
 
+// ---- scenario "large-buffers" ----------------------------------------------------------------------
+
+type c11BigCase struct {
+	StreamID int `json:"stream_id"`
+	Base     int `json:"length_base"`
+}
+
+// c11CheckBig decodes accumulated PES packets (not a single transport payload): one header at the
+// start of a buffer whose total length runs through every value around a power of two.
+func c11CheckBig(c c11BigCase) engine.Result {
+	var res engine.Result
+	id := byte(c.StreamID)
+	class := c11Class(id)
+	buf := make([]byte, c.Base+9+255+8)
+	for i := range buf {
+		buf[i] = byte(i*7 + i>>8)
+	}
+	var w ref.BitWriter
+	engine.Guard(&res, "NewPESHeader|large-buffer", func() {
+		for _, flags := range [...]byte{0, 2, 3} {
+			for _, st := range [...]int{0, 1, 9, -1} {
+				p := ref.PES{StreamID: id, PTSDTS: flags, PTS: 0x1FFFF8000, DTS: 0x155555555, Aligned: st != 1, PacketLength: 0}
+				p.Stuffing = st
+				if st < 0 {
+					p.Stuffing = 255 - p.OptionalLen()
+				}
+				w.Reset()
+				_, dataAt := p.AppendTo(&w)
+				if class != c11Optional {
+					dataAt = 6
+				}
+				hdr := w.Out()
+				copy(buf, hdr)
+				lo := c.Base - 3
+				if lo < len(hdr) {
+					lo = len(hdr)
+				}
+				for n := lo; n <= c.Base+len(hdr)+3 && n <= len(buf); n++ {
+					c11Judge(&res, buf[:n:n], class, id, &p, dataAt)
+					res.Nontrivial++
+					if len(res.Fail) > 4 {
+						return
+					}
+				}
+			}
+		}
+	})
+	res.Trans += res.Evals
+	res.Outcome(class, c.Base)
+	return res
+}
+
 // ---- scenario "timestamps" -------------------------------------------------------------------------
 
 type c11TSCase struct {
@@ -556,6 +608,23 @@ func init() {
 					}
 				},
 				Check: c11CheckTS, Batch: 16,
+			},
+			&engine.Enum[c11BigCase]{
+				Name: "large-buffers",
+				Rule: "case = stream id (12 ids incl. two without optional header) x length base 2^k (k = 8..17, thorough ..20, plus 3*2^16); NewPESHeader on an accumulated PES packet: one header (PTS_DTS_flags {00,10,11} x stuffing {0,1,9, up to PES_header_data_length 255}) at the start of a patterned buffer cut to every total length from base-3 to base+header length+3; all observables as in header-shapes, Data() must be exactly the bytes from the data offset to the end; non-trivial = each buffer",
+				Gen: func(r *engine.Run, emit func(c11BigCase)) {
+					maxK := 17
+					if r.Thorough() {
+						maxK = 20
+					}
+					for _, id := range append([]byte{0xBF, 0xFF}, c11TSIDs...) {
+						for k := 8; k <= maxK; k++ {
+							emit(c11BigCase{int(id), 1 << k})
+						}
+						emit(c11BigCase{int(id), 3 << 16})
+					}
+				},
+				Check: c11CheckBig, Batch: 1,
 			},
 			&engine.Enum[c11PktCase]{
 				Name: "packets",
